@@ -53,8 +53,8 @@ func main() {
 		return seen
 	}
 	_ = callgraph.Node{}
-	enc := closure(find("api/converter", "SnapshotToBytes"))
-	dec := closure(find("api/converter", "BytesToSnapshot"), find("pkg/document/crdt", "NewRoot"))
+	enc := closure(find("api/converter", os.Getenv("ENC_ROOT")))
+	dec := closure(find("api/converter", os.Getenv("DEC_ROOT")), find("pkg/document/crdt", "NewRoot"))
 	fmt.Println("encoder closure", len(enc), "decoder closure", len(dec))
 	type fk struct{ s, f string }
 	reads := map[fk]bool{}; writes := map[fk]bool{}
